@@ -247,7 +247,11 @@ def build(x):
     if name == 'Pdiff':
         return fp.Pdiff(B(x[1]))
     if name == 'Pconst':
-        return fp.Pconst(B(x[1]), x[2])
+        if len(x) == 3:
+            return fp.Pconst(B(x[1]), x[2])     # tolerance left out: 0.001
+        if isinstance(x[3], float) and (x[3] * 8) % 1 == 0:
+            return fp.Pconst(B(x[1]), x[2], tolerance=x[3])
+        return fp.Pconst(B(x[1]), x[2], x[3])
     if name == 'Pswitch':
         return lp.Pswitch([B(i) for i in x[1]], B(x[2]))
     if name == 'Pswitch1':
